@@ -43,8 +43,9 @@ TRUSTED = [
     're-indentation); the lines the dedent may touch inside string tokens are limited to those same constants per case',
     'token conservation counts identifiers, numbers, strings (modulo re-indentation of continuation lines), f-string '
     'middles and comments; keywords (except True/False/None) and the word `set` are structure the move may add or drop',
-    'recorded calls whose put_loc has end before start (finding C07-F1) lie outside the model domain (natural-number '
-    'coordinates) and are tallied, not replayed',
+    'recorded calls whose put_loc has end before start (produced by the defect C07-F1 before its repair) lie outside the '
+    'model domain (natural-number coordinates); they are tallied, not replayed, and reported through the sweep as '
+    'put_loc-short',
 ]
 ASSUMPTIONS = ['one copy/cut call is one atomic step',
                'geo (geometric order of the position tree, hypothesis of rebase_tree) holds of the trees used; evaluated '
@@ -689,6 +690,7 @@ def _compare(ctx, name, triples):
 def correspondence(ctx):
     items = _run_all(ctx)
     triples = []
+    outside = False
     for it in items:
         for r in it['recs']:
             if 'exc' in r:
@@ -704,7 +706,12 @@ def correspondence(ctx):
                 ctx.tally('make_fst_cut_shared_nodes', True)
             tr = ops.rec_to_case(r)
             if tr[0] is None:
-                ctx.tally('make_fst_outside_model_domain', tr[2])     # e.g. put_loc with end_ln = -1 (finding C07-F1)
+                ctx.tally('make_fst_outside_model_domain', tr[2])     # put_loc with end before start (was finding C07-F1)
+                if not outside:
+                    ctx.brk('correspondence', '_make_fst_and_dedent precondition',
+                            f'put_loc {r.get("put_loc")} / copy_loc {r["loc"]} has negative coordinates: outside the model '
+                            f'domain (the deletion span must be a span of the source); program {it["src"][:300]!r} op {it["op"]}')
+                    outside = True
                 continue
             triples.append(tr)
     _compare(ctx, '_make_fst_and_dedent vs Pfst.Copy.copyNode/cutNode', triples)
